@@ -1971,3 +1971,1232 @@ def selftest(with_lean, tmp):
                 print("selftest(cf): refused for another reason: %s: %s" % (body, r))
                 ok = False
     return ok
+
+
+# ================================================================================================== sub-dialect "io" (builder genio)
+#
+# Functions with `io=True` in their spec (units with dialect="cf") are translated by `IoFn` below instead of `FnTranslatorX`:
+# a small self-contained translator in *continuation style* for code that returns `io::Result<T>`, uses `?`, early
+# `return`s anywhere, block expressions, `if let` / `match` on `Option` / `Result` / tuples of them, `&mut` parameters, calls
+# of sibling methods with `&mut` arguments, and abstract operations on an opaque receiver (the `BufRead` below an
+# `IndexedReader`).  Semantics: lean/RbV/Basic/RsSemIo.lean (docs/notes/GEN.md, "Sub-dialect io").
+#
+#   * a translated function is  `def f (ops…) (self fields…) (params…) (ghosts…) : Res (Ret × outs…)`; the operations,
+#     fields, parameters and outputs are exactly those the spec lists, in that order, whether or not the current text uses
+#     them (stable signature: the theorems keep type-checking when a rewrite stops using one of them)
+#   * `io::Result<T>` = `Except IoErr T`; `e?` = `match e with | .error x => pure (.error x, outs…) | .ok v => …`; the
+#     outputs are returned on every path with their current values
+#   * mutation = shadowing `let` with the *same* Lean name; a `let` in a nested block that shadows a live outer variable
+#     gets a primed name
+#   * an `if` / `if let` / `match` without jumps (`return`, `?`) is a monadic expression that returns (value, outer variables
+#     assigned); with jumps the rest of the enclosing block is continued inside the branches that fall through
+#   * `while c { … }` = recursive helper `<fn>_while<k>` on fuel (spec `fuel=[…]`, may name a ghost parameter); with jumps in
+#     the body it returns `Flow R S`
+
+IO_MUT_METHODS = ("clear", "push", "extend_from_slice", "truncate")
+
+
+class IoParser(ParserX):
+    def if_(self):
+        x = self.expect("if")
+        if self.at("let"):
+            self.next()
+            pat = self.pattern()
+            self.expect("=")
+            e = self.expr(no_struct=True)
+            th = self.block()
+            el = None
+            if self.at("else"):
+                self.next()
+                if self.at("if"):
+                    y = self.peek()
+                    el = N("block", y.pos, stmts=[], tail=self.if_())
+                else:
+                    el = self.block()
+            return N("iflet", x.pos, pat=pat, e=e, then=th, els=el)
+        self.i -= 1
+        return ParserX.if_(self)
+
+    def postfix(self, no_struct):
+        e = self.primary(no_struct)
+        while True:
+            x = self.peek()
+            if self.at("."):
+                self.next()
+                nm = self.next()
+                if nm.kind == "num":
+                    if not nm.text.isdigit():
+                        raise Unsupported("tuple field access `.%s`" % nm.text, nm.pos)
+                    e = N("tfield", nm.pos, e=e, i=int(nm.text))
+                    continue
+                if nm.kind != "id":
+                    raise Unsupported("after `.`", nm.pos)
+                if self.at("::"):
+                    raise Unsupported("turbofish", self.peek().pos)
+                if self.at("("):
+                    e = N("mcall", nm.pos, recv=e, name=nm.text, args=self.args())
+                else:
+                    e = N("field", nm.pos, e=e, name=nm.text)
+            elif self.at("["):
+                self.next()
+                i = self.expr()
+                self.expect("]")
+                e = N("index", x.pos, base=e, idx=i)
+            elif self.at("?"):
+                self.next()
+                e = N("try", x.pos, e=e)
+            elif self.at("("):
+                raise Unsupported("call of a computed function value", x.pos)
+            else:
+                return e
+
+    def primary(self, no_struct):
+        x = self.peek()
+        if x.kind == "op" and x.text == "{":
+            return N("blockx", x.pos, b=self.block())
+        if x.kind == "id" and self.at("::", 1) and x.text not in rs.WIDTH:
+            j, path = self.i + 1, [x.text]
+            while self.t[j].kind == "op" and self.t[j].text == "::" and self.t[j + 1].kind == "id":
+                path.append(self.t[j + 1].text)
+                j += 2
+            nxt = self.t[j]
+            is_call = nxt.kind == "op" and (nxt.text in ("(", "!", "::") or (nxt.text == "{" and not no_struct))
+            if not is_call:
+                self.i = j
+                return N("path", x.pos, path=path)
+        return ParserX.primary(self, no_struct)
+
+
+def io_has_jump(n):
+    found = []
+
+    def f(x):
+        if x.kind in ("return", "try", "break", "continue"):
+            found.append(x.kind)
+        if x.kind == "closure":
+            return False
+    walk(n, f)
+    return bool(found)
+
+
+def io_effectful(n):
+    """can evaluating the expression panic, return, or change a variable?  (conservative)"""
+    found = []
+
+    def f(x):
+        if x.kind in ("index", "call", "try", "macro", "blockx", "if", "iflet", "match", "assign", "cast"):
+            found.append(x.kind)
+        elif x.kind == "mcall" and x.name not in ("len", "is_empty", "clone", "is_some", "is_none"):
+            found.append(x.kind)
+        elif x.kind == "bin" and x.op in ("+", "-", "*", "/", "%", "<<", ">>"):
+            found.append(x.kind)
+    walk(n, f)
+    return bool(found)
+
+
+def io_paren(s):
+    return s if re.fullmatch(r"[\w.'ρσα-ω]+", s) else "(" + s + ")"
+
+
+def io_lean_ty(t):
+    k = t[0]
+    if k == "int":
+        return "Nat"
+    if k == "bool":
+        return "Bool"
+    if k == "unit":
+        return "Unit"
+    if k == "list":
+        return "List " + io_paren(io_lean_ty(t[1]))
+    if k == "opt":
+        return "Option " + io_paren(io_lean_ty(t[1]))
+    if k == "res":
+        return "Except IoErr " + io_paren(io_lean_ty(t[1]))
+    if k == "tuple":
+        return " × ".join(io_paren(io_lean_ty(x)) if x[0] == "tuple" else io_lean_ty_prod(x) for x in t[1])
+    if k in ("struct", "abs"):
+        return t[1]
+    if k == "ioerr":
+        return "IoErr"
+    raise Unsupported("no Lean type for %r" % (t,))
+
+
+def io_lean_ty_prod(t):
+    s = io_lean_ty(t)
+    return "(" + s + ")" if t[0] in ("res", "opt", "list") and False else s
+
+
+def io_tuple(xs):
+    if not xs:
+        return "()"
+    if len(xs) == 1:
+        return xs[0]
+    return "(" + ", ".join(xs) + ")"
+
+
+def io_ty_eq(a, b):
+    if a is None or b is None:
+        return True
+    if a[0] != b[0]:
+        return False
+    if a[0] == "int":
+        return a[1] is None or b[1] is None or a[1] == b[1] or {a[1], b[1]} == {"u64", "usize"}
+    if a[0] in ("list", "opt", "res"):
+        return io_ty_eq(a[1], b[1])
+    if a[0] == "tuple":
+        return len(a[1]) == len(b[1]) and all(io_ty_eq(x, y) for x, y in zip(a[1], b[1]))
+    if a[0] in ("struct", "abs"):
+        return a[1] == b[1]
+    return True
+
+
+class IoVar:
+    def __init__(self, lean, ty, depth, mutable=True):
+        self.lean, self.ty, self.depth, self.mutable = lean, ty, depth, mutable
+
+
+class IoFn:
+    def __init__(self, unit, fspec, src, body_text, body_pos):
+        self.unit, self.spec, self.src = unit, fspec, src
+        self.lean_fn = fspec["lean"]
+        self.n_tmp = self.n_while = 0
+        self.helpers = []
+        self.loop_ctx = []           # stack of dict(state=[rust names]) for loops with exits
+        self.depth = 0
+        self.memo = {}
+        self.structs = unit.get("io_structs", {})
+        self.ops = unit.get("io_ops", {})
+        self.fn_ops = list(fspec.get("ops", []))
+        self.ghosts = list(fspec.get("ghosts", []))          # (lean name, lean type)
+        self.fuels = list(fspec.get("fuel", []))
+        self.consts = unit.get("io_consts", {})
+
+    # ---------------------------------------------------------------- helpers
+    def err(self, msg, node=None):
+        raise Unsupported(msg, node.pos if node is not None else None)
+
+    def tmp(self):
+        self.n_tmp += 1
+        return "t%d" % self.n_tmp
+
+    def parse_ty(self, s):
+        toks = rs.tokenize(s.replace(">>", "> >").replace(">>", "> >"), 0)
+        t, i = self._pty(toks, 0)
+        if toks[i].kind != "eof":
+            raise Unsupported("type `%s` in the translation spec" % s)
+        return t
+
+    def _pty(self, toks, i):
+        t = toks[i]
+        if t.text == "&":
+            i += 1
+            if toks[i].kind == "life":
+                i += 1
+            if toks[i].text == "mut":
+                i += 1
+            return self._pty(toks, i)
+        if t.text == "[":
+            el, i = self._pty(toks, i + 1)
+            if toks[i].text != "]":
+                raise Unsupported("array type in the translation spec")
+            return ("list", el), i + 1
+        if t.text == "(":
+            i += 1
+            items = []
+            while toks[i].text != ")":
+                x, i = self._pty(toks, i)
+                items.append(x)
+                if toks[i].text == ",":
+                    i += 1
+            return (("tuple", items) if items else ("unit",)), i + 1
+        if t.kind != "id":
+            raise Unsupported("type starting with `%s`" % t.text)
+        name = t.text
+        i += 1
+        while toks[i].text == "::" and toks[i + 1].kind == "id":
+            name = toks[i + 1].text
+            i += 2
+        args = []
+        if toks[i].text == "<":
+            i += 1
+            while toks[i].text != ">":
+                if toks[i].kind == "life":
+                    i += 1
+                else:
+                    x, i = self._pty(toks, i)
+                    args.append(x)
+                if toks[i].text == ",":
+                    i += 1
+            i += 1
+        if name in rs.WIDTH and not args:
+            return ("int", name), i
+        if name == "bool":
+            return ("bool",), i
+        if name in ("Vec", "VecDeque") and len(args) == 1:
+            return ("list", args[0]), i
+        if name == "Option" and len(args) == 1:
+            return ("opt", args[0]), i
+        if name == "Result" and len(args) == 1:
+            return ("res", args[0]), i
+        if name in self.structs:
+            return ("struct", name), i
+        gens = dict(self.unit.get("generics", {}))
+        gens.update(self.spec.get("generics", {}))
+        if name in gens:
+            return ("abs", gens[name]), i
+        al = dict(self.unit.get("aliases", {}))
+        al.update(self.spec.get("aliases", {}))
+        if name in al and not args:
+            return self.parse_ty(al[name]), i
+        raise Unsupported("type `%s` is not in the translated subset (sub-dialect io)" % name)
+
+    def ast_ty(self, t):
+        """type node of the parser → io type"""
+        if t.kind == "tref":
+            return self.ast_ty(t.inner)
+        if t.kind == "tslice":
+            return ("list", self.ast_ty(t.elem))
+        if t.kind == "ttuple":
+            return ("tuple", [self.ast_ty(x) for x in t.items]) if t.items else ("unit",)
+        return self.parse_ty(t.name + ("<" + ",".join("_" for _ in t.args) + ">" if False else "")) if not t.args else \
+            self._ast_ty_args(t)
+
+    def _ast_ty_args(self, t):
+        args = [self.ast_ty(x) for x in t.args]
+        if t.name in ("Vec", "VecDeque") and len(args) == 1:
+            return ("list", args[0])
+        if t.name == "Option" and len(args) == 1:
+            return ("opt", args[0])
+        self.err("type `%s<…>`" % t.name, t)
+
+    # ---------------------------------------------------------------- environment
+    def fresh(self, env, base):
+        live = set(v.lean for v in env.values())
+        live.update(g for g, _ in self.ghosts)
+        live.update(self.fn_ops)
+        nm = rs.lean_name(base)
+        if nm in ("fuel", "gas", "r", "e") or re.fullmatch(r"t\d+", nm):
+            nm += "_"
+        while nm in live:
+            nm += "'"
+        return nm
+
+    def declare(self, env, name, ty, node, mutable=True):
+        if name == "_":
+            return env, "_"
+        env2 = dict(env)
+        if name in env and env[name].depth == self.depth and not name.startswith("self."):
+            lean = env[name].lean                       # same block: the old binding is dead, reuse the name
+            env2.pop(name)
+        elif name in env:
+            e3 = dict(env)
+            lean = self.fresh(e3, name)                 # nested block shadows a live variable
+        else:
+            lean = self.fresh(env, name)
+        env2[name] = IoVar(lean, ty, self.depth, mutable)
+        return env2, lean
+
+    def path_of(self, e):
+        """`self.a.b` / `x.f` → "self.a.b" / "x.f" (None when the expression is not such a path)"""
+        parts = []
+        while True:
+            if e.kind == "paren":
+                e = e.e
+            elif e.kind == "un" and e.op in ("&", "*"):
+                e = e.e
+            elif e.kind == "field":
+                parts.append(e.name)
+                e = e.e
+            elif e.kind == "var":
+                parts.append(e.name)
+                return ".".join(reversed(parts))
+            else:
+                return None
+
+    def resolve(self, path, env):
+        """longest prefix of the path that is a variable; returns (key, remaining field names) or None"""
+        comps = path.split(".")
+        for n in range(len(comps), 0, -1):
+            key = ".".join(comps[:n])
+            if key in env:
+                return key, comps[n:]
+        return None
+
+    def lvalue_key(self, e, env, node):
+        p = self.path_of(e)
+        r = self.resolve(p, env) if p else None
+        if r is None:
+            self.err("assignment target / `&mut` argument is not a variable or a `self` field of the spec", node)
+        if r[1]:
+            self.err("assignment to the field `%s` of a struct value" % ".".join(r[1]), node)
+        return r[0]
+
+    def sibling(self, name):
+        for f in self.unit["functions"]:
+            if f.get("io") and f["name"].split("::")[-1] == name and name in self.spec.get("siblings", []):
+                return f
+        return None
+
+    def op_for_method(self, name):
+        for o in self.fn_ops:
+            d = self.ops.get(o)
+            if d and d.get("method") == name:
+                return o, d
+        return None
+
+    def assigned(self, node, env):
+        """keys of `env` that the node may assign (in env order)"""
+        out = set()
+
+        def key_of(e):
+            p = self.path_of(e)
+            r = self.resolve(p, env) if p else None
+            return r[0] if r else None
+
+        def f(x):
+            if x.kind == "assign":
+                k = key_of(x.lhs)
+                if k:
+                    out.add(k)
+            elif x.kind == "mcall":
+                rp = self.path_of(x.recv)
+                sib = self.sibling(x.name)
+                if sib is not None and rp is not None:
+                    for o in sib.get("outs", []):
+                        if o.startswith("self."):
+                            r = self.resolve(rp + o[4:], env)
+                            if r and not r[1]:
+                                out.add(r[0])
+                        else:
+                            idx = [p for p, _ in sib["params"]].index(o)
+                            if idx < len(x.args):
+                                k = key_of(x.args[idx])
+                                if k:
+                                    out.add(k)
+                elif x.name in IO_MUT_METHODS or (self.op_for_method(x.name) and self.op_for_method(x.name)[1].get("mut")):
+                    k = key_of(x.recv)
+                    if k:
+                        out.add(k)
+            elif x.kind == "closure":
+                return False
+        walk(node, f)
+        return [k for k in env if k in out]
+
+    def reads(self, node, env):
+        out = set()
+
+        def f(x):
+            if x.kind in ("var", "field"):
+                p = self.path_of(x)
+                r = self.resolve(p, env) if p else None
+                if r:
+                    out.add(r[0])
+                    return False
+            elif x.kind == "mcall":
+                rp = self.path_of(x.recv)
+                sib = self.sibling(x.name)
+                if sib is not None and rp is not None:
+                    for nm, _ in sib.get("self_fields", []):
+                        r = self.resolve(rp + "." + nm, env)
+                        if r:
+                            out.add(r[0])
+        walk(node, f)
+        return [k for k in env if k in out]
+
+    # ---------------------------------------------------------------- returning
+    def ret_tree(self, val, env, node=None):
+        outs = []
+        for o in self.spec.get("outs", []):
+            if o not in env:
+                self.err("output `%s` of the spec is not in scope" % o, node)
+            outs.append(env[o].lean)
+        tup = io_tuple([val] + outs)
+        if self.loop_ctx:
+            return ("pure", ".ret " + tup)
+        return ("pure", tup)
+
+    # ---------------------------------------------------------------- expressions (continuation style)
+    def int_width(self, t, node):
+        if t is None or t[0] != "int" or t[1] is None:
+            self.err("the integer type of this operation cannot be read off the text", node)
+        return rs.WIDTH[t[1]]
+
+    def ev_list(self, es, env, k, wants=None):
+        wants = wants or [None] * len(es)
+
+        def go(i, env, acc):
+            if i == len(es):
+                return k(acc, env)
+            return self.ev(es[i], env, lambda v, t, e2: go(i + 1, e2, acc + [(v, t)]), wants[i])
+        return go(0, env, [])
+
+    def ev(self, e, env, k, want=None):
+        """tree for: evaluate `e`, then continue with k(lean text, type, env)"""
+        kd = e.kind
+        if kd == "paren":
+            return self.ev(e.e, env, k, want)
+        if kd == "lit":
+            t = ("int", e.suf) if e.suf else (want if want is not None and want[0] == "int" else ("int", None))
+            return k(str(e.v), t, env)
+        if kd == "blit":
+            return k("true" if e.v else "false", ("bool",), env)
+        if kd == "var" and e.name == "None" and "None" not in env:
+            return k("none", want if want is not None and want[0] == "opt" else ("opt", None), env)
+        if kd in ("var", "field"):
+            p = self.path_of(e)
+            if p is not None and p in self.consts and p not in env:
+                return k(p, ("int", self.consts[p]), env)
+            r = self.resolve(p, env) if p else None
+            if r is None:
+                if kd == "field":
+                    return self.ev(e.e, env, lambda v, t, e2: self.field_of(v, t, e.name, e, e2, k))
+                self.err("unknown variable `%s`" % (p or "?"), e)
+            key, rest = r
+            v, t = env[key].lean, env[key].ty
+            for fname in rest:
+                v, t = self.field_text(v, t, fname, e)
+            return k(v, t, env)
+        if kd == "tfield":
+            def kt(v, t, e2):
+                if t[0] != "tuple" or e.i >= len(t[1]):
+                    self.err("`.%d` on %r" % (e.i, t), e)
+                return k(proj(v, e.i, len(t[1])), t[1][e.i], e2)
+            return self.ev(e.e, env, kt)
+        if kd == "un":
+            if e.op in ("&", "*"):
+                return self.ev(e.e, env, k, want)
+            if e.op == "!":
+                def kn(v, t, e2):
+                    if t[0] != "bool":
+                        self.err("`!` on %r" % (t,), e)
+                    return k("!" + io_paren(v), t, e2)
+                return self.ev(e.e, env, kn, ("bool",))
+            self.err("unary `%s`" % e.op, e)
+        if kd == "cast":
+            target = self.ast_ty(e.ty)
+
+            def kc(v, t, e2):
+                if t[0] != "int" or target[0] != "int":
+                    self.err("cast `as %r` from %r" % (target, t), e)
+                if t[1] is None or rs.WIDTH[target[1]] >= rs.WIDTH[t[1]]:
+                    if target[1][0] == "i" or (t[1] or "u")[0] == "i":
+                        self.err("cast involving a signed type", e)
+                    return k(v, target, e2)
+                return k("Rs.cast %d %s" % (rs.WIDTH[target[1]], io_paren(v)), target, e2)
+            return self.ev(e.e, env, kc, None)
+        if kd == "bin":
+            return self.binary(e, env, k, want)
+        if kd == "tuple":
+            if not e.items:
+                return k("()", ("unit",), env)
+            ws = want[1] if want is not None and want[0] == "tuple" and len(want[1]) == len(e.items) else None
+            return self.ev_list(e.items, env, lambda vs, e2: k(io_tuple([v for v, _ in vs]), ("tuple", [t for _, t in vs]), e2), ws)
+        if kd == "index":
+            return self.index(e, env, k)
+        if kd == "call":
+            return self.call(e, env, k, want)
+        if kd == "mcall":
+            return self.mcall(e, env, k, want)
+        if kd == "macro":
+            return self.macro(e, env, k)
+        if kd == "try":
+            if self.ret_ty[0] != "res":
+                self.err("`?` in a function that does not return `io::Result`", e)
+
+            def ktry(v, t, e2):
+                if t[0] != "res":
+                    self.err("`?` on a value of type %r" % (t,), e)
+                x, er = self.tmp(), "e"
+                err_val = "(Except.error %s : %s)" % (er, io_lean_ty(self.ret_ty))
+                return ("match", v, [(".error " + er, self.ret_tree(err_val, e2, e)), (".ok " + x, k(x, t[1], e2))])
+            return self.ev(e.e, env, ktry)
+        if kd == "blockx":
+            return self.block(e.b, env, k, want)
+        if kd in ("if", "iflet", "match"):
+            return self.branching(e, env, k, want, value=True)
+        if kd == "path":
+            self.err("path `%s` as a value" % "::".join(e.path), e)
+        if kd == "str":
+            self.err("string literal as a value", e)
+        if kd == "struct":
+            return self.struct_lit(e, env, k)
+        self.err("expression `%s` (sub-dialect io)" % kd, e)
+
+    def field_text(self, v, t, fname, node):
+        if t[0] != "struct":
+            self.err("field `.%s` of a value of type %r" % (fname, t), node)
+        for fn_, ft in self.structs[t[1]]["fields"]:
+            if fn_ == fname:
+                return "%s.%s" % (io_paren(v), rs.lean_name(fname)), self.parse_ty(ft)
+        self.err("struct `%s` has no translated field `%s`" % (t[1], fname), node)
+
+    def field_of(self, v, t, fname, node, env, k):
+        v2, t2 = self.field_text(v, t, fname, node)
+        return k(v2, t2, env)
+
+    def binary(self, e, env, k, want):
+        op = e.op
+        if op in ("&&", "||"):
+            if not io_effectful(e.r):
+                return self.ev_list([e.l, e.r], env,
+                                    lambda vs, e2: k("(%s %s %s)" % (vs[0][0], op, vs[1][0]), ("bool",), e2),
+                                    [("bool",), ("bool",)])
+
+            def kl(l, lt, e2):
+                short = k("false" if op == "&&" else "true", ("bool",), e2)
+                full = self.ev(e.r, e2, k, ("bool",))
+                return ("if", l, full, short) if op == "&&" else ("if", l, short, full)
+            return self.ev(e.l, env, kl, ("bool",))
+        lit_l = strip(e.l).kind == "lit" and not strip(e.l).suf
+        first, second = (e.r, e.l) if lit_l else (e.l, e.r)
+
+        def k1(a, at, e2):
+            def k2(b, bt, e3):
+                l, lt, r, rt = (b, bt, a, at) if lit_l else (a, at, b, bt)
+                if not io_ty_eq(lt, rt):
+                    self.err("`%s` on %r and %r" % (op, lt, rt), e)
+                ty = lt if (lt[0] != "int" or lt[1] is not None) else rt
+                if op in ("==", "!="):
+                    return k("(%s %s %s)" % (l, op, r), ("bool",), e3)
+                if op in ("<", ">", "<=", ">="):
+                    if ty[0] != "int" or (ty[1] or "u")[0] == "i":
+                        self.err("`%s` on %r" % (op, ty), e)
+                    return k("decide (%s %s %s)" % (l, {"<": "<", ">": ">", "<=": "≤", ">=": "≥"}[op], r), ("bool",), e3)
+                if ty[0] != "int" or (ty[1] or "u")[0] == "i":
+                    self.err("arithmetic `%s` on %r" % (op, ty), e)
+                if ty[1] is None:
+                    ty = want if want is not None and want[0] == "int" else ty
+                t = self.tmp()
+                if op == "+":
+                    m = "Rs.add %d %s %s" % (self.int_width(ty, e), io_paren(l), io_paren(r))
+                elif op == "-":
+                    m = "Rs.sub %s %s" % (io_paren(l), io_paren(r))
+                elif op == "*":
+                    m = "Rs.mul %d %s %s" % (self.int_width(ty, e), io_paren(l), io_paren(r))
+                elif op == "/":
+                    m = "Rs.div %s %s" % (io_paren(l), io_paren(r))
+                elif op == "%":
+                    m = "Rs.rem %s %s" % (io_paren(l), io_paren(r))
+                else:
+                    self.err("operator `%s` (sub-dialect io)" % op, e)
+                return ("bind", t, m, k(t, ty, e3))
+            return self.ev(second, e2, k2, at if at[0] == "int" else None)
+        return self.ev(first, env, k1, want if op in ("+", "-", "*", "/", "%") else None)
+
+    def index(self, e, env, k):
+        def kb(b, bt, e2):
+            if bt[0] != "list":
+                self.err("indexing into a value of type %r" % (bt,), e)
+            if e.idx.kind == "range":
+                lo, hi = e.idx.lo, e.idx.hi
+                if e.idx.incl:
+                    self.err("`..=` slice", e)
+                bounds = [x for x in (lo, hi) if x is not None]
+
+                def ks(vs, e3):
+                    it = iter(vs)
+                    l = next(it)[0] if lo is not None else "0"
+                    h = next(it)[0] if hi is not None else "%s.length" % io_paren(b)
+                    t = self.tmp()
+                    return ("bind", t, "Rs.slice %s %s %s" % (io_paren(b), io_paren(l), io_paren(h)), k(t, bt, e3))
+                return self.ev_list(bounds, e2, ks, [("int", "usize")] * len(bounds))
+
+            def ki(i, it, e3):
+                t = self.tmp()
+                return ("bind", t, "Rs.idx %s %s" % (io_paren(b), io_paren(i)), k(t, bt[1], e3))
+            return self.ev(e.idx, e2, ki, ("int", "usize"))
+        return self.ev(e.base, env, kb)
+
+    def call(self, e, env, k, want):
+        path = e.path
+        last = path[-1]
+        if last in ("min", "max") and len(e.args) == 2 and path[:-1] in ([], ["cmp"], ["std", "cmp"]):
+            def km(vs, e2):
+                (a, at), (b, bt) = vs
+                if at[0] != "int" or bt[0] != "int" or not io_ty_eq(at, bt):
+                    self.err("`%s` on %r and %r" % (last, at, bt), e)
+                return k("%s %s %s" % (last, io_paren(a), io_paren(b)), at if at[1] is not None else bt, e2)
+            w = want if want is not None and want[0] == "int" else None
+            return self.ev_list(e.args, env, km, [w, w])
+        if path == ["Ok"] and len(e.args) == 1:
+            w = want[1] if want is not None and want[0] == "res" else None
+            return self.ev(e.args[0], env, lambda v, t, e2: k("(Except.ok %s : Except IoErr %s)" % (io_paren(v), io_paren(io_lean_ty(self.concrete(t, w)))),
+                                                             ("res", self.concrete(t, w)), e2), w)
+        if path == ["Err"] and len(e.args) == 1:
+            def kerr(v, t, e2):
+                if want is not None and want[0] == "res":
+                    return k("(Except.error %s : %s)" % (io_paren(v), io_lean_ty(want)), want, e2)
+                return k("Except.error %s" % io_paren(v), ("res", None), e2)
+            return self.ev(e.args[0], env, kerr)
+        if path == ["Some"] and len(e.args) == 1:
+            w = want[1] if want is not None and want[0] == "opt" else None
+            return self.ev(e.args[0], env, lambda v, t, e2: k("some %s" % io_paren(v), ("opt", t), e2), w)
+        if len(path) >= 2 and path[-2:] == ["Error", "new"] and len(e.args) == 2:
+            kind, msg = e.args
+            if kind.kind != "path" or kind.path[-2:-1] != ["ErrorKind"]:
+                self.err("`io::Error::new` with a kind that is not `io::ErrorKind::<Name>`", e)
+            if msg.kind != "str":
+                self.err("`io::Error::new` with a message that is not a string literal", e)
+            return k("IoErr.mk \"%s\" %s" % (kind.path[-1], msg.text), ("ioerr",), env)
+        if path in (["Vec", "new"],) and not e.args:
+            return k("[]", want if want is not None and want[0] == "list" else ("list", None), env)
+        if path == ["Vec", "with_capacity"] and len(e.args) == 1:
+            return self.ev(e.args[0], env, lambda v, t, e2: k("[]", want if want is not None and want[0] == "list" else ("list", None), e2),
+                           ("int", "usize"))
+        if len(path) == 2 and path[1] == "from" and path[0] in rs.WIDTH and len(e.args) == 1:
+            return self.ev(e.args[0], env, lambda v, t, e2: k(v, ("int", path[0]), e2))
+        self.err("call of `%s` (sub-dialect io)" % "::".join(path), e)
+
+    def concrete(self, t, w):
+        if t is not None and t[0] == "int" and t[1] is None and w is not None:
+            return w
+        return t
+
+    def macro(self, e, env, k):
+        if e.name == "assert" and e.args:
+            def ka(c, ct, e2):
+                if ct[0] != "bool":
+                    self.err("`assert!` on %r" % (ct,), e)
+                return ("bind", "_", "Rs.assert %s" % io_paren(c), k("()", ("unit",), e2))
+            return self.ev(e.args[0], env, ka, ("bool",))
+        if e.name in ("panic", "unreachable", "unimplemented"):
+            return ("call", "Res.panic")
+        if e.name in ("debug_assert", "debug_assert_eq"):
+            return k("()", ("unit",), env)
+        self.err("macro `%s!` (sub-dialect io)" % e.name, e)
+
+    def struct_lit(self, e, env, k):
+        name = e.name.split("::")[-1]
+        sd = self.structs.get(name)
+        if sd is None:
+            self.err("struct literal `%s {…}`: not a struct of the spec" % name, e)
+        given = dict(e.fields)
+        want_names = [f for f, _ in sd["fields"]]
+        skip = sd.get("skip", [])
+        extra = [f for f in given if f not in want_names and f not in skip]
+        if extra or any(f not in given for f in want_names):
+            self.err("struct literal `%s` has fields %s, the spec expects %s" % (name, ",".join(given), ",".join(want_names)), e)
+        exprs, wants = [], []
+        for f, ft in sd["fields"]:
+            x = given[f]
+            if x.kind == "var" and x.name == "self":
+                alias = sd.get("self_alias", {}).get(f)
+                if alias is None:
+                    self.err("`%s: self` in a struct literal" % f, e)
+                x = N("field", x.pos, e=x, name=alias)
+            exprs.append(x)
+            wants.append(self.parse_ty(ft))
+        return self.ev_list(exprs, env, lambda vs, e2: k("{ " + ", ".join("%s := %s" % (rs.lean_name(f), v) for (f, _), (v, _) in zip(sd["fields"], vs)) + " }",
+                                                      ("struct", name), e2), wants)
+
+    def mcall(self, e, env, k, want):
+        nm = e.name
+        rp = self.path_of(e.recv)
+        sib = self.sibling(nm)
+        if sib is not None and rp is not None:
+            return self.sibling_call(e, sib, rp, env, k)
+        opm = self.op_for_method(nm)
+        if opm is not None:
+            return self.op_call(e, opm[0], opm[1], env, k)
+        key = (rp or "?") + "." + nm
+        av = self.spec.get("abs_vals", {}).get(key)
+        if av is not None and not e.args:
+            return k(av["lean"], self.parse_ty(av["ty"]), env)
+        if nm in ("len", "is_empty") and not e.args:
+            def kl(v, t, e2):
+                if t[0] != "list":
+                    self.err("`.%s()` on %r" % (nm, t), e)
+                if nm == "len":
+                    return k("%s.length" % io_paren(v), ("int", "usize"), e2)
+                return k("%s.isEmpty" % io_paren(v), ("bool",), e2)
+            return self.ev(e.recv, env, kl)
+        if nm in ("clone", "to_owned", "to_vec", "as_slice", "borrow") and not e.args:
+            return self.ev(e.recv, env, k, want)
+        if nm == "get" and len(e.args) == 1:
+            def kg(vs, e2):
+                (v, t), (i, it) = vs
+                if t[0] != "list":
+                    self.err("`.get(i)` on %r" % (t,), e)
+                return k("%s[%s]?" % (io_paren(v), i), ("opt", t[1]), e2)
+            return self.ev_list([e.recv, e.args[0]], env, kg, [None, ("int", "usize")])
+        if nm in ("is_some", "is_none", "is_ok", "is_err") and not e.args:
+            lean = {"is_some": "isSome", "is_none": "isNone", "is_ok": "isOk", "is_err": "isOk"}[nm]
+            return self.ev(e.recv, env, lambda v, t, e2: k(("!" if nm == "is_err" else "") + "%s.%s" % (io_paren(v), lean), ("bool",), e2))
+        # mutators as expression statements
+        if nm in IO_MUT_METHODS or nm == "reserve":
+            return self.mutator(e, env, k)
+        self.err("method `.%s(…)` is outside the translated subset (sub-dialect io)" % nm, e)
+
+    def mutator(self, e, env, k):
+        nm = e.name
+        if nm == "reserve":
+            return self.ev_list(e.args, env, lambda vs, e2: k("()", ("unit",), e2), [("int", "usize")] * len(e.args))
+        key = self.lvalue_key(e.recv, env, e)
+        var = env[key]
+        if var.ty[0] != "list":
+            self.err("`.%s(…)` on %r" % (nm, var.ty), e)
+
+        def upd(text, e2):
+            e3 = dict(e2)
+            e3[key] = IoVar(var.lean, var.ty, var.depth, var.mutable)
+            return ("let", var.lean, text, k("()", ("unit",), e3))
+        if nm == "clear" and not e.args:
+            return upd("([] : %s)" % io_lean_ty(var.ty), env)
+        if nm == "push" and len(e.args) == 1:
+            return self.ev(e.args[0], env, lambda v, t, e2: upd("%s ++ [%s]" % (e2[key].lean, v), e2), var.ty[1])
+        if nm == "extend_from_slice" and len(e.args) == 1:
+            return self.ev(e.args[0], env, lambda v, t, e2: upd("%s ++ %s" % (e2[key].lean, io_paren(v)), e2), var.ty)
+        if nm == "truncate" and len(e.args) == 1:
+            return self.ev(e.args[0], env, lambda v, t, e2: upd("%s.take %s" % (io_paren(e2[key].lean), io_paren(v)), e2), ("int", "usize"))
+        self.err("method `.%s(…)`" % nm, e)
+
+    def op_call(self, e, oname, od, env, k):
+        key = self.lvalue_key(e.recv, env, e) if od.get("mut") else None
+        args = list(e.args)
+        wrap = od.get("wrap")
+        if wrap:
+            if len(args) != 1 or args[0].kind != "call" or args[0].path[-len(wrap):] != wrap or len(args[0].args) != 1:
+                self.err("`.%s(…)`: the argument is not `%s(…)`" % (e.name, "::".join(wrap)), e)
+            args = args[0].args
+        if len(args) != len(od.get("args", [])):
+            self.err("`.%s` called with %d arguments, the spec says %d" % (e.name, len(args), len(od.get("args", []))), e)
+        wants = [self.parse_ty(a) for a in od.get("args", [])]
+        ret = self.parse_ty(od["ret"]) if od.get("ret") else None
+
+        def kr(r, rt, e1):
+            def ka(vs, e2):
+                call = "%s %s" % (oname, " ".join([io_paren(e2[key].lean) if key else io_paren(r)] + [io_paren(v) for v, _ in vs]))
+                if key is None:
+                    return k(call, ret or ("unit",), e2)
+                var = e2[key]
+                e3 = dict(e2)
+                e3[key] = IoVar(var.lean, var.ty, var.depth, var.mutable)
+                if ret is None:
+                    return ("let", var.lean, call, k("()", ("unit",), e3))
+                t = self.tmp()
+                return ("let", "(%s, %s)" % (t, var.lean), call, k(t, ret, e3))
+            return self.ev_list(args, e1, ka, wants)
+        return self.ev(e.recv, env, kr)
+
+    def sibling_call(self, e, sib, rp, env, k):
+        params = sib["params"]
+        if len(e.args) != len(params):
+            self.err("`%s` called with %d arguments, its spec says %d" % (e.name, len(e.args), len(params)), e)
+        for o in sib.get("ops", []):
+            if o not in self.fn_ops:
+                self.err("`%s` needs the abstract operation `%s`, which the spec of this function does not list" % (e.name, o), e)
+        for g, _ in sib.get("ghosts", []):
+            if g not in [x for x, _ in self.ghosts]:
+                self.err("`%s` needs the ghost parameter `%s`" % (e.name, g), e)
+        wants = []
+        sub = IoFn(self.unit, sib, self.src, "", 0)
+        for _, pt in params:
+            wants.append(sub.parse_ty(pt))
+
+        def ka(vs, e2):
+            selfs = []
+            for nm, _ in sib.get("self_fields", []):
+                r = self.resolve(rp + "." + nm, e2)
+                if r is None or r[1]:
+                    self.err("`%s` reads `self.%s`: `%s.%s` is not a field of the spec" % (e.name, nm, rp, nm), e)
+                selfs.append(e2[r[0]].lean)
+            call = " ".join([sib["lean"]] + list(sib.get("ops", [])) + [io_paren(s) for s in selfs] + [io_paren(v) for v, _ in vs]
+                            + [g for g, _ in sib.get("ghosts", [])])
+            ret = sub.parse_ty(sib["ret"]) if sib.get("ret") else ("unit",)
+            t = self.tmp()
+            pats, e3 = [t], dict(e2)
+            for o in sib.get("outs", []):
+                if o.startswith("self."):
+                    r = self.resolve(rp + o[4:], e2)
+                    if r is None or r[1]:
+                        self.err("`%s` writes `%s`: not a field of the spec here" % (e.name, o), e)
+                    key = r[0]
+                else:
+                    idx = [p for p, _ in params].index(o)
+                    key = self.lvalue_key(e.args[idx], e2, e)
+                var = e2[key]
+                pats.append(var.lean)
+                e3[key] = IoVar(var.lean, var.ty, var.depth, var.mutable)
+            return ("bind", io_tuple(pats), call, k(t, ret, e3))
+        return self.ev_list(e.args, env, ka, wants)
+
+    # ---------------------------------------------------------------- branching
+    def pat_lean(self, p, ty, env):
+        """pattern → (lean pattern text, env with the binders)"""
+        if p.kind == "pid":
+            if p.name == "_":
+                return "_", env
+            if p.name == "None":
+                return "none", env
+            env2, lean = self.declare(env, p.name, ty, p)
+            return lean, env2
+        if p.kind == "ptuple":
+            if ty is None or ty[0] != "tuple" or len(ty[1]) != len(p.items):
+                self.err("tuple pattern against %r" % (ty,), p)
+            parts = []
+            for x, t in zip(p.items, ty[1]):
+                s, env = self.pat_lean(x, t, env)
+                parts.append(s)
+            return "(" + ", ".join(parts) + ")", env
+        if p.kind == "pctor" and len(p.items) == 1:
+            ctor = {"Some": ("opt", "some"), "Ok": ("res", ".ok"), "Err": ("res", ".error")}.get(p.name)
+            if ctor is None or ty is None or ty[0] != ctor[0]:
+                self.err("pattern `%s(…)` against %r" % (p.name, ty), p)
+            inner_ty = ("ioerr",) if p.name == "Err" else ty[1]
+            s, env = self.pat_lean(p.items[0], inner_ty, env)
+            return "%s %s" % (ctor[1], s), env
+        self.err("pattern (sub-dialect io)", p)
+
+    def branching(self, e, env, k, want, value):
+        """`if`, `if let`, `match` as a statement (value=False) or as an expression"""
+        jumpy = io_has_jump(e.then) or (e.els is not None and io_has_jump(e.els)) if e.kind in ("if", "iflet") else \
+            any(io_has_jump(b) for _, b in e.arms)
+        outer = env
+        self_depth = self.depth
+
+        if jumpy:
+            kb = k
+        else:
+            blocks = [e.then] + ([e.els] if e.els is not None else []) if e.kind in ("if", "iflet") else [b for _, b in e.arms]
+            A = []
+            for b in blocks:
+                for a in self.assigned(b, outer):
+                    if a not in A:
+                        A.append(a)
+            A = [a for a in outer if a in A]
+            vty = []
+
+            def kb(v, t, e2):
+                vty.append(t)
+                parts = ([v] if value else []) + [e2[a].lean for a in A]
+                return ("pure", io_tuple(parts))
+
+        def arm(block, env_in):
+            if block is None:
+                return kb("()", ("unit",), env_in)
+            return self.block(block, env_in, kb, want)
+
+        if e.kind == "if":
+            def kc(c, ct, e2):
+                if ct[0] != "bool":
+                    self.err("condition of type %r" % (ct,), e.cond)
+                return ("if", c, arm(e.then, e2), arm(e.els, e2))
+            tree_of = lambda: self.ev(e.cond, env, kc, ("bool",))
+        elif e.kind == "iflet":
+            def ks(s, st, e2):
+                self.depth += 1
+                pat, e3 = self.pat_lean(e.pat, st, e2)
+                self.depth -= 1
+                th = self.block(e.then, e3, lambda v, t, e4: kb(v, t, {kk: e4[kk] for kk in e2}), want)
+                return ("match", s, [(pat, th), ("_", arm(e.els, e2))])
+            tree_of = lambda: self.ev(e.e, env, ks)
+        else:
+            def ks(s, st, e2):
+                arms = []
+                for pats, body in e.arms:
+                    if len(pats) != 1:
+                        self.err("`|` alternatives in a `match` arm (sub-dialect io)", e)
+                    self.depth += 1
+                    pat, e3 = self.pat_lean(pats[0], st, e2)
+                    self.depth -= 1
+                    arms.append((pat, self.block(body, e3, lambda v, t, e4: kb(v, t, {kk: e4[kk] for kk in e2}), want)))
+                return ("match", s, arms)
+            tree_of = lambda: self.ev(e.scrut, env, ks)
+
+        if jumpy:
+            return tree_of()
+        tree = tree_of()
+        ts = [t for t in vty if t is not None and t != ("unit",)] if value else []
+        rty = (ts[0] if ts else ("unit",)) if value else ("unit",)
+        if value and rty[0] == "res" and rty[1] is None:
+            better = [t for t in ts if t[0] == "res" and t[1] is not None]
+            rty = better[0] if better else (want if want is not None else rty)
+        env_after = dict(outer)
+        for a in A:
+            var = outer[a]
+            env_after[a] = IoVar(var.lean, var.ty, var.depth, var.mutable)
+        pats = []
+        vname = None
+        if value:
+            vname = self.tmp()
+            pats.append(vname)
+        pats += [outer[a].lean for a in A]
+        if not pats:
+            if tree[0] == "pure":
+                return k("()", ("unit",), env_after)
+            return ("bindm", "_", tree, k("()", ("unit",), env_after))
+        # pure `if c then a else b`
+        if tree[0] == "if" and tree[2][0] == "pure" and tree[3][0] == "pure":
+            return ("let", io_tuple(pats), "if %s then %s else %s" % (tree[1], tree[2][1], tree[3][1]),
+                    k(vname if value else "()", rty, env_after))
+        return ("bindm", io_tuple(pats), tree, k(vname if value else "()", rty, env_after))
+
+    # ---------------------------------------------------------------- blocks and statements
+    def block(self, b, env, k, want=None):
+        outer_keys = list(env.keys())
+        self.depth += 1
+        d = self.depth
+
+        def kend(v, t, e2):
+            self.depth = d - 1
+            return k(v, t, {kk: e2[kk] for kk in outer_keys})
+        try:
+            return self.stmts(list(b.stmts), b.tail, env, kend, want)
+        finally:
+            self.depth = d - 1
+
+    def stmts(self, ss, tail, env, k, want=None):
+        d = self.depth
+        if not ss:
+            if tail is None:
+                return k("()", ("unit",), env)
+            return self.ev(tail, env, k, want)
+        s = ss[0]
+
+        def rest(env2):
+            self.depth = d
+            return self.stmts(ss[1:], tail, env2, k, want)
+        return self.stmt(s, env, rest)
+
+    def stmt(self, s, env, rest):
+        kd = s.kind
+        if kd == "let":
+            ann = self.ast_ty(s.ty) if s.ty is not None else None
+            if ann is None and s.pat.kind == "pid" and s.pat.name in self.spec.get("locals", {}):
+                ann = self.parse_ty(self.spec["locals"][s.pat.name])
+
+            def kl(v, t, e2):
+                ty = ann if ann is not None else t
+                if ty is not None and ty[0] == "int" and ty[1] is None:
+                    self.err("the type of `%s` cannot be read off the text (give it a type in the spec: `locals`)"
+                             % ",".join(rs.pat_names(s.pat)), s)
+                if s.pat.kind == "pid":
+                    e3, lean = self.declare(e2, s.pat.name, ty, s, s.pat.mut if hasattr(s.pat, "mut") else True)
+                    if lean == v:
+                        return rest(e3)
+                    return ("let", lean, v, rest(e3))
+                pat, e3 = self.pat_lean(s.pat, ty, e2)
+                return ("let", pat, v, rest(e3))
+            return self.ev(s.init, env, kl, ann)
+        if kd == "letdecl":
+            ty = self.ast_ty(s.ty)
+            e2, lean = self.declare(env, s.name, ty, s)
+            zero = {"int": "0", "bool": "false", "list": "[]", "opt": "none"}.get(ty[0])
+            if zero is None:
+                self.err("`let %s: …;` without initialiser" % s.name, s)
+            return ("let", lean, zero, rest(e2))
+        if kd == "assign":
+            key = self.lvalue_key(s.lhs, env, s)
+            var = env[key]
+
+            def kr(v, t, e2):
+                cur = e2[key]
+                e3 = dict(e2)
+                e3[key] = IoVar(cur.lean, cur.ty, cur.depth, cur.mutable)
+                if s.op is None:
+                    return ("let", cur.lean, v, rest(e3))
+                w = self.int_width(cur.ty, s) if cur.ty[0] == "int" else None
+                m = {"+": "Rs.add %s %s %s" % (w, cur.lean, io_paren(v)), "-": "Rs.sub %s %s" % (cur.lean, io_paren(v)),
+                     "*": "Rs.mul %s %s %s" % (w, cur.lean, io_paren(v)), "/": "Rs.div %s %s" % (cur.lean, io_paren(v)),
+                     "%": "Rs.rem %s %s" % (cur.lean, io_paren(v))}.get(s.op)
+                if m is None or cur.ty[0] != "int":
+                    self.err("compound assignment `%s=` on %r" % (s.op, cur.ty), s)
+                return ("bind", cur.lean, m, rest(e3))
+            return self.ev(s.rhs, env, kr, var.ty)
+        if kd == "exprs":
+            return self.ev(s.e, env, lambda v, t, e2: rest(e2))
+        if kd in ("ifs", "matchs"):
+            return self.branching(s.e, env, lambda v, t, e2: rest(e2), None, value=False)
+        if kd == "tail":
+            return self.ev(s.e, env, lambda v, t, e2: rest(e2))
+        if kd == "blocks":
+            return self.block(s.b, env, lambda v, t, e2: rest(e2))
+        if kd == "return":
+            if s.e is None:
+                return self.ret_tree("()", env, s)
+            return self.ev(s.e, env, lambda v, t, e2: self.ret_tree(v, e2, s), self.ret_ty)
+        if kd == "while":
+            return self.while_(s, env, rest)
+        self.err("statement `%s` (sub-dialect io)" % kd, s)
+
+    def while_(self, s, env, rest):
+        if self.loop_ctx:
+            self.err("nested loops (sub-dialect io)", s)
+        jumpy = io_has_jump(s.body) or io_has_jump(s.cond)
+        state = self.assigned(s.body, env)
+        rd = self.reads(s.cond, env) + self.reads(s.body, env)
+        if jumpy:
+            rd = rd + [o for o in self.spec.get("outs", [])]      # the outputs are returned from inside the loop
+        caps = [kk for kk in env if kk in rd and kk not in state]
+        if id(s) in self.memo:
+            name, k_idx = self.memo[id(s)]
+        else:
+            self.n_while += 1
+            k_idx = self.n_while
+            name = "%s_while%d" % (self.lean_fn, k_idx)
+            self.memo[id(s)] = (name, k_idx)
+            if k_idx > len(self.fuels):
+                self.err("`while` loop %d has no fuel expression in the translation spec" % k_idx, s)
+            henv = {kk: env[kk] for kk in env if kk in caps or kk in state}
+            ops = "".join(" " + o for o in self.fn_ops)
+            cap_args = "".join(" " + henv[c].lean for c in caps)
+            st_pats = [henv[x].lean for x in state]
+            self.loop_ctx.append(dict(jumpy=jumpy))
+            depth0 = self.depth
+            try:
+                def kc(c, ct, e2):
+                    if ct[0] != "bool":
+                        self.err("loop condition of type %r" % (ct,), s.cond)
+
+                    def kbody(v, t, e3):
+                        return ("call", "%s%s%s gas %s" % (name, ops, cap_args, " ".join(io_paren(e3[x].lean) for x in state)))
+                    done = io_tuple([e2[x].lean for x in state])
+                    if not jumpy:
+                        self.loop_ctx[-1]["plain"] = True
+                    return ("if", c, self.block(s.body, e2, kbody),
+                            ("pure", (".next " + done) if jumpy else done))
+                if not jumpy:
+                    # no exits: `return` cannot occur (io_has_jump), so ret_tree is never called inside
+                    pass
+                tree = self.ev(s.cond, henv, kc, ("bool",))
+            finally:
+                self.loop_ctx.pop()
+                self.depth = depth0
+            st_ty = " × ".join(io_paren(io_lean_ty(henv[x].ty)) if henv[x].ty[0] == "tuple" else io_lean_ty(henv[x].ty) for x in state) or "Unit"
+            full_ret = self.full_ret_ty()
+            rty = "Flow (%s) (%s)" % (full_ret, st_ty) if jumpy else st_ty
+            lines = ["def %s%s%s : Nat → %sRes (%s)" % (
+                name, self.ops_sig(), "".join(" (%s : %s)" % (henv[c].lean, io_lean_ty(henv[c].ty)) for c in caps),
+                "".join(io_paren(io_lean_ty(henv[x].ty)) + " → " for x in state), rty)]
+            lines.append("  | 0%s => Res.fuel" % "".join(", _" for _ in state))
+            lines.append("  | gas + 1%s => do" % "".join(", " + p for p in st_pats))
+            io_emit(tree, 4, lines)
+            self.helpers.append("\n".join(lines))
+        ops = "".join(" " + o for o in self.fn_ops)
+        call = "%s%s%s %s %s" % (name, ops, "".join(" " + env[c].lean for c in caps), io_paren(self.fuels[k_idx - 1]),
+                                 " ".join(io_paren(env[x].lean) for x in state))
+        e2 = dict(env)
+        for x in state:
+            var = env[x]
+            e2[x] = IoVar(var.lean, var.ty, var.depth, var.mutable)
+        pat = io_tuple([env[x].lean for x in state]) if state else "_"
+        if not jumpy:
+            return ("bind", pat, call, rest(e2))
+        r = self.tmp()
+        return ("bind", r, call, ("match", r, [(".ret v", ("pure", "v")), (".next " + (pat if state else "_"), rest(e2))]))
+
+    def full_ret_ty(self):
+        parts = [io_lean_ty(self.ret_ty)]
+        for o in self.spec.get("outs", []):
+            parts.append(io_lean_ty(self.env0[o].ty))
+        return " × ".join(io_paren(p) if " × " in p else p for p in parts)
+
+    def ops_sig(self):
+        return "".join(" (%s : %s)" % (o, self.ops[o]["lean_ty"]) for o in self.fn_ops)
+
+    # ---------------------------------------------------------------- the function
+    def translate(self, toks):
+        body = IoParser(toks).body()
+        sp = self.spec
+        env = {}
+        params = []
+        for ent in sp.get("self_fields", []):
+            nm, ty = ent[0], ent[1]
+            t = self.parse_ty(ty)
+            lean = ent[2] if len(ent) > 2 else self.fresh(env, nm)
+            env["self." + nm] = IoVar(lean, t, 0)
+            params.append((lean, t))
+        for nm, ty in sp["params"]:
+            t = self.parse_ty(ty)
+            lean = self.fresh(env, nm)
+            env[nm] = IoVar(lean, t, 0, ty.replace(" ", "").startswith("&mut") or True)
+            params.append((lean, t))
+        self.env0 = env
+        self.ret_ty = self.parse_ty(sp["ret"]) if sp.get("ret") else ("unit",)
+        for o in sp.get("outs", []):
+            if o not in env:
+                raise Unsupported("output `%s` of the spec is neither a self field nor a parameter" % o)
+        self.depth = 0
+        tree = self.stmts(list(body.stmts), body.tail, env, lambda v, t, e2: self.final(v, t, e2, body), self.ret_ty)
+        sig = "def %s%s%s%s : Res (%s) := do" % (
+            self.lean_fn, self.ops_sig(), "".join(" (%s : %s)" % (l, io_lean_ty(t)) for l, t in params),
+            "".join(" (%s : %s)" % g for g in self.ghosts), self.full_ret_ty())
+        lines = [sig]
+        io_emit(tree, 2, lines)
+        return self.helpers, "\n".join(lines), [], None
+
+    def final(self, v, t, env, node):
+        if not io_ty_eq(t, self.ret_ty):
+            self.err("the function ends with a value of type %r, the spec declares %r" % (t, self.ret_ty), node)
+        return self.ret_tree(v, env, node)
+
+
+def io_emit(tree, ind, out):
+    pad = " " * ind
+    kd = tree[0]
+    if kd == "let":
+        out.append("%slet %s := %s" % (pad, tree[1], tree[2]))
+        io_emit(tree[3], ind, out)
+    elif kd == "bind":
+        out.append("%slet %s ← %s" % (pad, tree[1], tree[2]))
+        io_emit(tree[3], ind, out)
+    elif kd == "bindm":
+        sub = []
+        io_emit(tree[2], ind + 4, sub)
+        out.append("%slet %s ←" % (pad, tree[1]))
+        if tree[2][0] in ("if", "match"):
+            out.extend(sub)
+        else:
+            out.append("%s  (do" % pad)
+            out.extend(sub)
+            out[-1] += ")"
+        io_emit(tree[3], ind, out)
+    elif kd == "if":
+        out.append("%sif %s then do" % (pad, tree[1]))
+        io_emit(tree[2], ind + 4, out)
+        out.append("%s  else do" % pad)
+        io_emit(tree[3], ind + 4, out)
+    elif kd == "match":
+        out.append("%smatch %s with" % (pad, tree[1]))
+        for pat, arm in tree[2]:
+            out.append("%s| %s => do" % (pad, pat))
+            io_emit(arm, ind + 4, out)
+    elif kd == "pure":
+        out.append("%spure %s" % (pad, atom(tree[1])))
+    elif kd == "call":
+        out.append(pad + tree[1])
+    else:
+        raise Unsupported("internal: tree node %r" % (kd,))
+
+
+def io_unit_preamble(src, unit, fail):
+    """Lean text in front of the functions of a unit with io functions: structures of the spec (their Rust declaration is
+    pinned: the field list must still be the one the spec states) and constants read from the source"""
+    out = []
+    for name, sd in unit.get("io_structs", {}).items():
+        pin = sd.get("pinned")
+        if pin:
+            toks = [t.text for t in rs.tokenize(pin, 0)[:-1]]
+            parts = []
+            for i, t in enumerate(toks):
+                parts.append(re.escape(t))
+                if i + 1 < len(toks):
+                    a, b = t[-1], toks[i + 1][0]
+                    parts.append(r"\s+" if (a.isalnum() or a == "_") and (b.isalnum() or b == "_") else r"\s*")
+            n = len(re.findall("".join(parts), src.code))
+            if n != 1:
+                fail("%s: the declaration `%s` the translation spec relies on occurs %d times (fields added, removed or retyped)"
+                     % (unit["file"], " ".join(pin.split())[:80], n))
+        if sd.get("emit", True):
+            tr = IoFn(unit, dict(lean="_", params=[], name="_"), src, "", 0)
+            gens = sorted(set(re.findall(r"[ρσ]", " ".join(io_lean_ty(tr.parse_ty(ft)) for _, ft in sd["fields"]))))
+            out.append("structure %s%s where" % (name, "".join(" (%s : Type)" % g for g in gens)))
+            for f, ft in sd["fields"]:
+                out.append("  %s : %s" % (rs.lean_name(f), io_lean_ty(tr.parse_ty(ft))))
+            out.append("")
+    for name, ty in unit.get("io_consts", {}).items():
+        v = src.int_const(name, ty)
+        out.append("/-- `const %s: %s` -/" % (name, ty))
+        out.append("def %s : Nat := %d" % (name, v))
+        out.append("")
+    return out
